@@ -1,11 +1,13 @@
 /-
   Arithmetic lemmas about the TRANSLATED history-gravity update (`Gen.Funcs.histAdd`, generated
   from /repo/heur/hist.go; `contAdd`/`captAdd` are the same formula, `Gen.Funcs.contAdd_eq_histAdd`),
-  the move-weight layout constants of /repo/heur/heur.go, and the translated `InvalidPieceCount`.
+  and the move-weight layout constants of /repo/heur/heur.go.
   Core Lean only.  The gravity bound is a real proof (floor-quotient bounds from
   `(K − |h|)·(K − |c|) ≥ 0`), not an enumeration.
 -/
 import ChessVerif.Gen.Funcs
+
+set_option linter.unusedSimpArgs false
 
 namespace ChessVerif.Proofs.Hist
 open ChessVerif ChessVerif.Gen.Funcs
@@ -55,6 +57,8 @@ theorem mul_bounds {K h a : Int} (h1 : -K ≤ h) (h2 : h ≤ K) (a0 : 0 ≤ a) (
   omega
 
 theorem wrapS16_id {x : Int} (h : -32768 ≤ x ∧ x ≤ 32767) : wrapS16 x = x := by unfold wrapS16; omega
+theorem wrapS64_id' {x : Int} (h1 : -9223372036854775808 ≤ x) (h2 : x ≤ 9223372036854775807) : wrapS64 x = x := by
+  unfold wrapS64; omega
 theorem wrapS64_id {x : Int} (h : -9223372036854775808 ≤ x ∧ x ≤ 9223372036854775807) : wrapS64 x = x := by
   unfold wrapS64; omega
 
@@ -63,37 +67,35 @@ theorem wrapS64_id {x : Int} (h : -9223372036854775808 ≤ x ∧ x ≤ 922337203
 /-- A stored history value is in range. -/
 def HistOK (h : Int) : Prop := -MaxHistory ≤ h ∧ h ≤ MaxHistory
 
-/-- The exact-integer (wrap-free) gravity update `h + c − trunc(h·|c| / MaxHistory)`,
-    `c` = the bonus clamped to ±MaxHistory. -/
-def histIdeal (h bonus : Int) : Int :=
-  let c := min MaxHistory (max bonus (-MaxHistory))
-  h + c - Int.tdiv (h * (if c < 0 then -c else c)) MaxHistory
+instance (h : Int) : Decidable (HistOK h) := by unfold HistOK; exact inferInstance
 
 /-- One update from an in-range value, for EVERY integer bonus (in particular every `int16`):
-    no `int16`/`int64` wrap happens anywhere (the translated function equals the exact formula)
-    and the result is in range again. -/
+    no `int16`/`int64` wrap happens anywhere — the translated function equals `histAdd_ideal`, the
+    extractor's rendering of the same Go statement over exact integers,
+    `h + (c − trunc(h·|c| / MaxHistory))` with `c` the bonus clamped to ±MaxHistory — and the result is in
+    range again.  (The literal in the generated body is matched through `MaxHistory`, not written here.) -/
 theorem histAdd_exact_bound {h bonus : Int} (hh : HistOK h) :
-    histAdd h bonus = histIdeal h bonus ∧ HistOK (histAdd h bonus) := by
+    histAdd h bonus = histAdd_ideal h bonus ∧ HistOK (histAdd h bonus) := by
   obtain ⟨h1, h2⟩ := hh
-  simp only [MaxHistory] at h1 h2
-  simp only [histAdd, histIdeal, HistOK, MaxHistory, clampS16, absS16, goDiv]
-  obtain ⟨c, hc⟩ : ∃ c, min (1024 : Int) (max bonus (-1024)) = c := ⟨_, rfl⟩
-  simp only [hc]
-  have c1 : -1024 ≤ c := by omega
-  have c2 : c ≤ 1024 := by omega
-  have ea : (if c < 0 then wrapS16 (-c) else c) = (if c < 0 then -c else c) := by
-    split
+  obtain ⟨c, hc⟩ : ∃ c, min MaxHistory (max bonus (-MaxHistory)) = c := ⟨_, rfl⟩
+  have c1 : -MaxHistory ≤ c := by simp only [MaxHistory] at hc ⊢; omega
+  have c2 : c ≤ MaxHistory := by simp only [MaxHistory] at hc ⊢; omega
+  have hK : 0 < MaxHistory := by decide
+  obtain ⟨a, ha⟩ : ∃ a, (if c < 0 then -c else c) = a := ⟨_, rfl⟩
+  have a0 : 0 ≤ a := by subst ha; simp only [MaxHistory] at c1 c2; split <;> omega
+  have a1 : a ≤ MaxHistory := by subst ha; simp only [MaxHistory] at c1 c2 ⊢; split <;> omega
+  have ac : c = a ∨ c = -a := by subst ha; split <;> omega
+  have hp := mul_bounds h1 h2 a0 a1
+  have hg := tdiv_gravity hK h1 h2 a0 a1
+  obtain ⟨g, hgd⟩ : ∃ g, Int.tdiv (h * a) MaxHistory = g := ⟨_, rfl⟩
+  rw [hgd] at hg
+  simp only [MaxHistory] at h1 h2 hc c1 c2 a1 hp hg hgd
+  have ea : (if c < 0 then wrapS16 (-c) else c) = a := by
+    rw [← ha]; split
     · exact wrapS16_id (by omega)
     · rfl
-  rw [ea]
-  generalize ha : (if c < 0 then -c else c) = a
-  have a0 : 0 ≤ a := by subst ha; split <;> omega
-  have a1 : a ≤ 1024 := by subst ha; split <;> omega
-  have ac : c = a ∨ c = -a := by subst ha; split <;> omega
-  have hp : -(1024 * 1024) ≤ h * a ∧ h * a ≤ 1024 * 1024 := mul_bounds (K := 1024) h1 h2 a0 a1
-  rw [wrapS64_id (x := h) (by omega), wrapS64_id (x := a) (by omega), wrapS64_id (x := h * a) (by omega)]
-  have hg := tdiv_gravity (K := 1024) (h := h) (a := a) (by decide) h1 h2 a0 a1
-  generalize Int.tdiv (h * a) 1024 = g at hg ⊢
+  simp only [histAdd, histAdd_ideal, HistOK, MaxHistory, clampS16, clampS16_ideal, absS16, absS16_ideal, goDiv, hc, ea, ha]
+  rw [wrapS64_id (x := h) (by omega), wrapS64_id (x := a) (by omega), wrapS64_id (x := h * a) (by omega), hgd]
   rw [wrapS64_id (x := g) (by omega), wrapS16_id (x := g) (by omega), wrapS16_id (x := c - g) (by omega),
     wrapS16_id (x := h + (c - g)) (by omega)]
   omega
@@ -119,37 +121,15 @@ def noisyScore (promo victim invAttacker : Int) : Int :=
     `King − attacker` 0..6) the score needs no wrap and lies in `[0, CaptureRange)`. -/
 theorem noisyScore_range {p v i : Int} (hp : 0 ≤ p ∧ p ≤ 4) (hv : 0 ≤ v ∧ v ≤ 6) (hi : 0 ≤ i ∧ i ≤ 6) :
     noisyScore p v i = p * 42 + v * 6 + i ∧ 0 ≤ noisyScore p v i ∧ noisyScore p v i < CaptureRange := by
-  simp only [noisyScore, wrapS16, CaptureRange]; omega
+  simp only [noisyScore]
+  rw [wrapS16_id (x := p * 6) (by omega), wrapS16_id (x := p * 6 * 7) (by omega), wrapS16_id (x := v * 6) (by omega),
+    wrapS16_id (x := p * 6 * 7 + v * 6) (by omega), wrapS16_id (x := p * 6 * 7 + v * 6 + i) (by omega)]
+  simp only [CaptureRange]; omega
 
 /-- Three in-range counters added in `Score` arithmetic (as `RankQuiet` does): no wrap, |sum| ≤ 3·MaxHistory. -/
 theorem quiet_sum {a b c : Int} (ha : HistOK a) (hb : HistOK b) (hc : HistOK c) :
     wrapS16 (wrapS16 (a + b) + c) = a + b + c ∧ -(3 * MaxHistory) ≤ a + b + c ∧ a + b + c ≤ 3 * MaxHistory := by
   simp only [HistOK, MaxHistory] at *
   simp only [wrapS16]; omega
-
-/-! ### InvalidPieceCount -/
-
-/-- The promotion bound for one side: exactly one king and
-    `Σ max(0, nᵢ − initᵢ) ≤ 8 − pawns` with init = 2,2,2,1 for N,B,R,Q; counts are non-negative. -/
-def PromotedBound (kingPow2 : Bool) (n b r q p : Int) : Prop :=
-  kingPow2 = true ∧ 0 ≤ n ∧ 0 ≤ b ∧ 0 ≤ r ∧ 0 ≤ q ∧ 0 ≤ p ∧
-    max 0 (n - 2) + max 0 (b - 2) + max 0 (r - 2) + max 0 (q - 1) ≤ 8 - p
-
-theorem side_accepts {k : Bool} {n b r q p : Int} (h : PromotedBound k n b r q p) :
-    invalidPieceCountSide k n b r q p = false := by
-  obtain ⟨hk, h1, h2, h3, h4, h5, h6⟩ := h
-  subst hk
-  simp only [invalidPieceCountSide, wrapS64, not_true_eq_false, ↓reduceIte, ite_eq_right_iff, Bool.true_eq_false]
-  omega
-
-/-- For population counts (0..64) the translated test is EXACTLY the negation of the bound. -/
-theorem side_iff {k : Bool} {n b r q p : Int} (hn : 0 ≤ n ∧ n ≤ 64) (hb : 0 ≤ b ∧ b ≤ 64) (hr : 0 ≤ r ∧ r ≤ 64)
-    (hq : 0 ≤ q ∧ q ≤ 64) (hp : 0 ≤ p ∧ p ≤ 64) :
-    invalidPieceCountSide k n b r q p = false ↔ PromotedBound k n b r q p := by
-  cases k
-  · simp [invalidPieceCountSide, PromotedBound]
-  · simp only [invalidPieceCountSide, PromotedBound, wrapS64, not_true_eq_false, ↓reduceIte, ite_eq_right_iff,
-      Bool.true_eq_false, true_and]
-    omega
 
 end ChessVerif.Proofs.Hist
